@@ -54,6 +54,7 @@ fn generate(prop: &str, seed: u64, thorough: bool) -> Option<Plan> {
         "C07udp" => Some(scen_ustream::gen_ustream("C07", seed, thorough)),
         "C08udp" => Some(scen_c08u::gen_c08u(seed, thorough)),
         "C09" => Some(scen_tcp::gen_c09(seed, thorough)),
+        "C09sid" => Some(scen_adv::gen_c09_sid(seed, thorough)),
         "C09udp" => Some(scen_udp::gen_c09_udp(seed, thorough)),
         "C10" => Some(scen_c10::gen_c10(seed, thorough)),
         "C11model" => Some(scen_pw::gen_c11_model(seed, thorough)),
@@ -71,6 +72,7 @@ fn execute(plan: &Plan) -> Outcome {
     match plan.scenario.as_str() {
         "tcp-system" => scen_tcp::execute_c01(plan),
         "independence" => scen_tcp::execute_c09(plan),
+        "shared-session-id" => scen_adv::execute_c09_sid(plan),
         "independence-udp" => scen_udp::execute_c09_udp(plan),
         "link-seg" => scen_link::execute_c04(plan),
         "link-tamper" => scen_link::execute_c05(plan),
